@@ -9,6 +9,7 @@
 package c05
 
 import (
+	"crypto/sha1"
 	"encoding/binary"
 	"fmt"
 	"math/rand/v2"
@@ -25,6 +26,18 @@ import (
 	"verifharness/swarm"
 	"verifharness/vk"
 )
+
+// theInfo is the info dictionary whose hash the torrent under attack was added by: the geometry's own, or
+// (some magnet histories) an authentic but unusable one (empty name) that storrent must refuse every time
+// it is delivered.
+var infoOverride []byte
+
+func theInfo(g *fixture.Geo) []byte {
+	if infoOverride != nil {
+		return infoOverride
+	}
+	return g.Info()
+}
 
 const allocMul = 256
 const allocC0 = 1 << 20
@@ -128,7 +141,7 @@ func hostile(rng *rand.Rand, g *fixture.Geo, r *swarm.Remote) hmsg {
 	if !r.Tr.T.InfoComplete() && r.Opt.Fast && rng.IntN(6) == 0 {
 		// before the metadata is known nothing can be range-checked: allowed-fast indices at and around the
 		// piece count that the torrent will turn out to have, have-all, and then the true metadata
-		info := g.Info()
+		info := theInfo(g)
 		var b []byte
 		for _, ix := range []uint32{np, np - 1, np + 1, 0} {
 			b = append(b, refwire.Encode(refwire.Msg{Kind: refwire.KAllowedFast, Index: ix})...)
@@ -270,13 +283,13 @@ func hostile(rng *rand.Rand, g *fixture.Geo, r *swarm.Remote) hmsg {
 			e.P = &p
 			cls += " port"
 		case 6:
-			ms := int64(len(g.Info()))
+			ms := int64(len(theInfo(g)))
 			e.MetadataSize = &ms
 			cls += " true-metadata_size"
 		case 7:
 			// a size vote from a peer that does not speak ut_metadata (key absent, or number 0 = disabled):
 			// nothing may be asked of it
-			ms := int64([]int64{int64(len(g.Info())), 16384, 40000}[rng.IntN(3)])
+			ms := int64([]int64{int64(len(theInfo(g))), 16384, 40000}[rng.IntN(3)])
 			e.MetadataSize = &ms
 			if rng.IntN(2) == 0 {
 				delete(e.M, "ut_metadata")
@@ -349,13 +362,13 @@ func hostile(rng *rand.Rand, g *fixture.Geo, r *swarm.Remote) hmsg {
 		return enc(refwire.Msg{Kind: refwire.KExtended, Sub: extID("ut_pex", 1), Data: payload}, cls)
 	case x < 84: // metadata
 		tp := int64(rng.IntN(4))
-		pc, c := bval(rng, uint32(len(g.Info())+16383)/16384)
+		pc, c := bval(rng, uint32(len(theInfo(g))+16383)/16384)
 		m := refwire.Meta{Type: tp, Piece: int64(pc)}
 		cls := fmt.Sprintf("metadata type-%d piece-%s", tp, c)
 		if rng.IntN(2) == 0 {
-			ts, c2 := bval(rng, uint32(len(g.Info())))
+			ts, c2 := bval(rng, uint32(len(theInfo(g))))
 			if rng.IntN(3) == 0 {
-				ts, c2 = uint32(len(g.Info())), "true"
+				ts, c2 = uint32(len(theInfo(g))), "true"
 			}
 			t64 := int64(ts)
 			m.TotalSize = &t64
@@ -364,7 +377,7 @@ func hostile(rng *rand.Rand, g *fixture.Geo, r *swarm.Remote) hmsg {
 		if tp == 1 {
 			n := []int{0, 1, 16383, 16384, 16385, 1 << 17}[rng.IntN(6)]
 			m.Data = make([]byte, n)
-			info := g.Info()
+			info := theInfo(g)
 			if int(pc)*16384 < len(info) && rng.IntN(2) == 0 {
 				copy(m.Data, info[int(pc)*16384:])
 				if int(pc)*16384+n > len(info) && rng.IntN(2) == 0 {
@@ -395,14 +408,31 @@ func history(t *testing.T, c *vk.C, rng *rand.Rand, i int) map[string]int {
 			config.SetIdleRate(64 * 1024)
 		}
 		g := fixture.RandGeo(rng, 1<<20, []uint32{16 << 10, 32 << 10, 128 << 10})
-		tr := sw.AddTorrent(g, swarm.TorOpts{Magnet: magnet})
+		infoOverride = nil
+		defer func() { infoOverride = nil }()
+		var tr *swarm.Tor
+		if magnet && i%4 == 3 {
+			// added by the hash of a dictionary that is authentic and unusable (no name): every complete
+			// delivery of it must be refused, however often peers repeat it
+			d := refwire.NewDict()
+			d.Set("length", g.Length)
+			d.Set("name", []string{"", "/"}[rng.IntN(2)])
+			d.Set("piece length", int64(g.PieceLen))
+			d.Set("pieces", make([]byte, 20*g.NumPieces()))
+			infoOverride = refwire.Benc(d)
+			h := sha1.Sum(infoOverride)
+			tr = sw.AddMagnet(g, h[:])
+			st["magnet_with_unusable_info"]++
+		} else {
+			tr = sw.AddTorrent(g, swarm.TorOpts{Magnet: magnet})
+		}
 		// second torrent with its own canary
 		g2 := &fixture.Geo{Name: "canary", PieceLen: 16 << 10, Length: 40000, Seed: 5}
 		tr2 := sw.AddTorrent(g2, swarm.TorOpts{})
 		can2 := tr2.Connect(swarm.RemoteOpts{Fast: true, Ext: true})
 		can2.SendExt0(swarm.StdExt0(0, 0))
 		can := tr.Connect(swarm.RemoteOpts{Fast: true, Ext: true})
-		can.SendExt0(swarm.StdExt0(0, int64(len(g.Info()))))
+		can.SendExt0(swarm.StdExt0(0, int64(len(theInfo(g)))))
 		meta := "known"
 		if magnet {
 			meta = "unknown"
